@@ -6,8 +6,12 @@
     (tree update t u (L ignore*))              tree_update(t, u, ignore = [...]) ; also Dict(t) + u
     (tree get t (T S:k*))                      tree_getitem(t, path)
     (tree merge t u (L ignore*))               the specification `merge` (used by the harness as oracle)
+    (tree updateh t u (L ignore*))             tree_update on the heap model (PygModel/TreeHeap.lean): both operands are
+                                               laid out in a heap, the call is run with its item assignments, the result
+                                               node is read back; `mutated` if a pre-existing node was written
 -/
 import PygModel.Tree
+import PygModel.TreeHeap
 
 namespace Pyg.TreeDriver
 open Pyg Pyg.Tree
@@ -34,6 +38,22 @@ def res (r : Res Val) : String :=
   | .ok v => "ok " ++ v.render
   | .error e => "err " ++ e.render
 
+/-- `tree_update` through the heap model; the frame (no old node written) is re-checked at run time -/
+def heapUpdate (t u : Val) (ig : List Val) : String :=
+  let (m1, rt) := TreeHeap.allocTree ⟨[], []⟩ t
+  let (m2, ru) := TreeHeap.allocTree m1 u
+  match rt, ru with
+  | .ptr a, .ptr b =>
+    match TreeHeap.treeUpdateH (m2.heap.length + 1) m2 a b ig with
+    | .error e => "err " ++ e.render
+    | .ok (m', r) =>
+      if m'.heap.take m2.heap.length != m2.heap || m'.log.any (· < m2.heap.length) then "mutated"
+      else match TreeHeap.readH m'.heap (m'.heap.length + 1) (.ptr r) with
+        | some v => "ok " ++ v.render
+        | none => "err Other"
+  | .ptr _, .val _ => "err ValueError"
+  | _, _ => "err Other"
+
 def handle1 (op : String) (args : List Sexp) : Option String := do
   match op, args with
   | "items", [t] => pure ("ok " ++ (Val.list ((items (← Val.ofSexp t)).map itemV)).render)
@@ -48,6 +68,10 @@ def handle1 (op : String) (args : List Sexp) : Option String := do
   | "update", t :: u :: ig :: _ =>
       match ← Val.ofSexp ig with
       | .list ig => pure (res (update (← Val.ofSexp t) (← Val.ofSexp u) ig))
+      | _ => Option.none
+  | "updateh", t :: u :: ig :: _ =>
+      match ← Val.ofSexp ig with
+      | .list ig => pure (heapUpdate (← Val.ofSexp t) (← Val.ofSexp u) ig)
       | _ => Option.none
   | "merge", [t, u, ig] =>
       match ← Val.ofSexp ig with
